@@ -31,7 +31,7 @@
 #ifndef NO_CUSTOM_ALLOC
 #define NO_CUSTOM_ALLOC
 #endif
-#define C19_SIZES 24 + 40 + 4 /* rbtree node + kv_block_desc_t key + u32 value */
+#define C19_SIZES 24 + 40 + 4, 3 * 8 /* rbtree node + kv_block_desc_t key + u32 value; NPAIRS pairs */
 #include "c19_env.h"
 #include "util/str_table.h"
 
@@ -93,15 +93,21 @@ static int c19_memcmp(const void *a, const void *b, size_t n)
 #define NPAIRS 3
 #define KP sizeof(kv_block_desc_t)
 
-typedef struct {
-	rbtree_node_t n;
-	kv_block_desc_t key;
-	sqfs_u32 value;
-} node_wrap_t;
+/* a tree node is the 68-byte block mknode() allocates: header, key, value.
+ * (A typed wrapper struct would be 72 bytes with tail padding; copying 68 of
+ * those into a 68-byte object makes cbmc 6.11 abort in bv_to_array_expr.) */
+#define NODE_SIZE (sizeof(rbtree_node_t) + sizeof(kv_block_desc_t) + sizeof(sqfs_u32))
+#define NODE_KEY(n) ((kv_block_desc_t *)(n)->data)
+#define NODE_VAL(n) (*(sqfs_u32 *)((n)->data + KP))
 
 static void node_set_red(rbtree_node_t *n, unsigned red)
 {
 	*(sqfs_u32 *)((char *)n + offsetof(rbtree_node_t, value_offset) + 4) = red;
+}
+
+static unsigned node_get_red(const rbtree_node_t *n)
+{
+	return *(const sqfs_u32 *)((const char *)n + offsetof(rbtree_node_t, value_offset) + 4) & 1;
 }
 
 static void mk_table(str_table_t *t)
@@ -120,7 +126,7 @@ static const size_t g_start[2] = { 0, 2 }, g_count[2] = { 2, 1 };
 void harness(void)
 {
 	sqfs_xattr_writer_t *o, *c;
-	node_wrap_t *on[NA];
+	rbtree_node_t *on[NA];
 	kv_block_desc_t *od[NA];
 	sqfs_u64 *opairs, pair[NPAIRS], sref[NA];
 	size_t sbytes[NA], kv_start = verif_nd_size("kv_start");
@@ -131,10 +137,7 @@ void harness(void)
 	long live0;
 	int i;
 
-	VERIF_ASSERT(sizeof(node_wrap_t) == 24 + 40 + 4 + 4 &&
-		     offsetof(node_wrap_t, key) == offsetof(rbtree_node_t, data) &&
-		     offsetof(node_wrap_t, value) == offsetof(rbtree_node_t, data) + KP,
-		     C19_OB("env.wrapper_layout"));
+	VERIF_ASSERT(NODE_SIZE == 24 + 40 + 4, C19_OB("env.wrapper_layout"));
 
 	o = malloc(sizeof(*o));
 	o->base.refcount = 1;
@@ -164,25 +167,25 @@ void harness(void)
 	o->kv_block_tree.value_size = sizeof(sqfs_u32);
 	o->kv_block_tree.key_context = o;
 	for (i = 0; i < NB; ++i) {
-		on[i] = malloc(sizeof(node_wrap_t));
-		od[i] = &on[i]->key;
+		on[i] = malloc(NODE_SIZE);
+		od[i] = NODE_KEY(on[i]);
 	}
 	for (i = 0; i < NB; ++i) {
-		on[i]->n.left = (i == 0 && NB > 1) ? &on[1]->n : NULL;
-		on[i]->n.right = NULL;
-		on[i]->n.value_offset = KP;
-		node_set_red(&on[i]->n, i);
-		on[i]->key.start = g_start[i];
-		on[i]->key.count = g_count[i];
+		on[i]->left = (i == 0 && NB > 1) ? on[1] : NULL;
+		on[i]->right = NULL;
+		on[i]->value_offset = KP;
+		node_set_red(on[i], i);
+		od[i]->start = g_start[i];
+		od[i]->count = g_count[i];
 		sref[i] = verif_nd_u64("start_ref");
 		sbytes[i] = verif_nd_size("size_bytes");
 		val[i] = verif_nd_u32("index");
-		on[i]->key.start_ref = sref[i];
-		on[i]->key.size_bytes = sbytes[i];
-		on[i]->key.next = NULL;
-		on[i]->value = val[i];
+		od[i]->start_ref = sref[i];
+		od[i]->size_bytes = sbytes[i];
+		od[i]->next = NULL;
+		NODE_VAL(on[i]) = val[i];
 	}
-	o->kv_block_tree.root = NB > 0 ? &on[0]->n : NULL;
+	o->kv_block_tree.root = NB > 0 ? on[0] : NULL;
 	o->kv_block_first = NULL;
 	o->kv_block_last = NULL;
 	if (NB == 1) {
@@ -207,16 +210,16 @@ void harness(void)
 		     o->values.bucket_ptrs.data == ovarr && o->kv_pairs.data == opairs &&
 		     o->kv_pairs.used == NPAIRS && o->kv_pairs.count == 4 &&
 		     o->kv_start == kv_start && o->num_blocks == NB &&
-		     o->kv_block_tree.root == (NB > 0 ? &on[0]->n : NULL) &&
+		     o->kv_block_tree.root == (NB > 0 ? on[0] : NULL) &&
 		     o->kv_block_tree.key_context == o &&
 		     o->kv_block_tree.key_compare == block_compare, C19_OB("frame"));
 	for (i = 0; i < NPAIRS; ++i)
 		VERIF_ASSERT(opairs[i] == pair[i], C19_OB("frame"));
 	for (i = 0; i < NB; ++i)
-		VERIF_ASSERT(on[i]->n.left == ((i == 0 && NB > 1) ? &on[1]->n : NULL) &&
-			     on[i]->n.right == NULL && on[i]->key.start == g_start[i] &&
-			     on[i]->key.count == g_count[i] && on[i]->key.start_ref == sref[i] &&
-			     on[i]->key.size_bytes == sbytes[i] && on[i]->value == val[i],
+		VERIF_ASSERT(on[i]->left == ((i == 0 && NB > 1) ? on[1] : NULL) &&
+			     on[i]->right == NULL && od[i]->start == g_start[i] &&
+			     od[i]->count == g_count[i] && od[i]->start_ref == sref[i] &&
+			     od[i]->size_bytes == sbytes[i] && NODE_VAL(on[i]) == val[i],
 			     C19_OB("frame"));
 	if (NB == 0)
 		VERIF_ASSERT(o->kv_block_first == NULL && o->kv_block_last == NULL,
@@ -292,7 +295,7 @@ void harness(void)
 			cd[i] = (kv_block_desc_t *)cn[i]->data;
 			VERIF_ASSERT((cn[i]->left != NULL) == (i == 0 && NB > 1) &&
 				     cn[i]->right == NULL && cn[i]->value_offset == KP &&
-				     cn[i]->is_red == (unsigned)i &&
+				     node_get_red(cn[i]) == (unsigned)i &&
 				     cd[i]->start == g_start[i] && cd[i]->count == g_count[i] &&
 				     cd[i]->start_ref == sref[i] &&
 				     cd[i]->size_bytes == sbytes[i] &&
